@@ -165,15 +165,50 @@ def clause_content_from_mls(prog, rep):
     rep.floor("stored-content-from-mls", "received Message records", n, 1)
 
 
+def clause_remove_all_leaves(prog, rep):
+    """removing a user removes every leaf bound to that identity: the leaf list handed to MlsGroup::remove_members is taken per
+    member from MlsGroup::members(), never through a structure keyed by identity (which keeps one leaf per user)"""
+    import re
+    n = 0
+    for f in prog.nontest_fns(("mdk_core",)):
+        for c in f.live_calls():
+            if not K.is_mls_call(c, "remove_members"):
+                continue
+            n += 1
+            a = c.args[-1]
+            if "p" not in a:
+                continue
+            dep, calls, _ = f.depends_on(a["p"][0])
+            from_members = any(x.name == "members" and last_seg(x.self_adt) == "MlsGroup" for x in calls)
+            keyed = sorted(set(f.locals[l] for l in dep if re.search(r"(HashMap|BTreeMap)<nostr::key::public_key::PublicKey,", f.locals[l])))
+            # per-member decision: a push into the list is control-dependent on a `contains` test, or the list is a filtered iterator chain
+            per_member = any(x.name in ("filter", "filter_map") for x in calls)
+            for x in calls:
+                if x.name == "push":
+                    for w in A.control_dependent_switches(f, x.bb):
+                        d2, c2, _ = f.depends_on(A._opl(f.term(w)["discr"]))
+                        if any(y.name == "contains" for y in c2):
+                            per_member = True
+            root = prog.fns.get(f.root, f)
+            rep.check(from_members and not keyed and per_member, "remove-every-leaf", "%s/MlsGroup::remove_members" % root.label(),
+                      "the leaves to remove are selected per member of MlsGroup::members() by a membership test on the requested identities",
+                      "the leaf list for MlsGroup::remove_members %s: a user with several clients (leaves) under one identity keeps all but one of "
+                      "them in the group after being removed" % ("passes through a map keyed by identity (%s)" % keyed if keyed else
+                                                                   "is not selected per member of MlsGroup::members()"), c.loc())
+    rep.floor("remove-every-leaf", "MlsGroup::remove_members call sites", n, 1)
+
+
 def run(ctx, rep):
     prog = ctx.prog()
     rep.fns_analysed = len(K.core_scope(prog))
     rep.clause("C03.1 GroupState::Active is written only in the extents of MDK::create_group and MDK::accept_welcome")
     rep.clause("C03.2 after a merge on the receive path the new exporter secret is exported only when own_leaf() is Some; the None side stores Inactive")
     rep.clause("C03.3 kind-445 content is exactly nip44::encrypt(key<-exporter secret, payload<-TLS-serialised MLS message)")
+    rep.clause("C03.5 remove_members selects leaves per member of MlsGroup::members() (every client of a removed identity leaves)")
     rep.clause("C03.4 stored message content derives from MlsGroup::process_message output")
     rep.not_decided = "what ex-members can derive cryptographically, use-after-eviction refusal and past-epoch secret retention inside OpenMLS"
     clause_active_writers(prog, rep)
     clause_eviction(prog, rep)
     clause_wrapper_content(prog, rep)
     clause_content_from_mls(prog, rep)
+    clause_remove_all_leaves(prog, rep)
